@@ -169,10 +169,11 @@ Definition sum_dec_spec (P : dparams) (parts : list (list Z)) : outcome (option 
   if all_empty parts then Ok None
   else if fits (max128 P) (sum_exact parts) then Ok (Some (sum_exact parts)) else Err.
 
-(* AVG(decimal): i128 accumulator with native `+=` (Panic in Debug / wrap in Release on overflow),
-   count; result (sum as f64) / (count as f64 * 10^scale).  The model returns the accumulator. *)
+(* AVG(decimal): i128 accumulator, `checked_add` since 2f7b0a8b9 (error "Avg overflowed" in every profile;
+   before: native `+=`, Panic in Debug / wrap in Release), count; result (sum as f64) / (count as f64 * 10^scale).
+   The model returns the accumulator. *)
 Definition avg_dec_acc (m : mode) (xs : list Z) : outcome Z :=
-  fold_left (fun acc x => bind_out acc (fun s => arith_result Native m Signed 128 (s + x))) xs (Ok 0).
+  fold_left (fun acc x => bind_out acc (fun s => arith_result Checked m Signed 128 (s + x))) xs (Ok 0).
 
 (* ---------------------------------------------------------------- binary64 rounding *)
 (* nearest binary64 to the rational n/d (d > 0), ties to even, as its bit pattern; normal range
